@@ -446,7 +446,8 @@ def run_family(ctx, family, n, perfile=20, seed_off=0, race=False, env_extra=Non
     """Go random driver -> scenarios -> real code -> traces -> TLC."""
     out = ctx.sub("fam-%s-%d" % (family, seed_off))
     try:
-        run_icex(ctx, ["genrun", family, ctx.seed * 1000 + seed_off, n, out, perfile], race=race, env_extra=env_extra)
+        run_icex(ctx, ["genrun", family, ctx.seed * 1000 + seed_off, n, out, perfile], race=race, env_extra=env_extra,
+                 timeout=1200 if ctx.quick else 3000)       # thorough tiers run one executor process over up to thousands of scenarios
     except Crashed:
         ctx.log("%s: executor crashed inside ice (recorded as violation); its partial traces are not validated" % family)
         return []
